@@ -195,6 +195,11 @@ func dumpFn(w *World, key string) {
 				for _, r := range x.Results {
 					rs = append(rs, clip(Render(r).String(), 160))
 				}
+				for i := range x.Results {
+					if rv := retValue(x, i); rv != x.Results[i] {
+						rs = append(rs, fmt.Sprintf("[#%d resolves to %s]", i, clip(Render(rv).String(), 120)))
+					}
+				}
 				fmt.Printf("  b%d RETURN %s fail=%v\n", b.Index, strings.Join(rs, " ; "), returnIsFailure(fn, x))
 			case *ssa.Store:
 				fmt.Printf("  b%d STORE %s = %s\n", b.Index, clip(Render(x.Addr).String(), 100), clip(Render(x.Val).String(), 200))
